@@ -1,7 +1,7 @@
 """C05 Verdict, reported errors and acknowledgement always agree."""
 import ast
 
-from ..core import Ob, Rule, AnalysisError, norm, KeyMaker
+from ..core import require_idiom, Ob, Rule, AnalysisError, norm, KeyMaker
 from ..cfg import path_of
 from .. import astutil as A
 
@@ -142,6 +142,7 @@ def r2_evidence(ctx):
     # err_handler.get_error_count sums its children
     fn = ctx.func('error_handler', 'err_handler.get_error_count')
     ok = any(isinstance(n, ast.For) and norm(n.iter) == 'self.children' for n in ast.walk(fn)) and 'get_error_count' in ast.unparse(fn)
+    require_idiom(ok, 'c05.py:144')
     yield Ob('error_handler:err_handler.get_error_count sums every interchange', ok, ctx.floc(fn), '' if ok else 'root count changed')
 
 
@@ -358,6 +359,7 @@ def r6_totals(ctx):
     yield Ob('error_handler:err_gs.close ack_code comes from _get_ack_code()', ok, ctx.floc(f), '' if ok else 'changed')
     f = ctx.func('error_handler', 'err_gs.count_failed_st')
     ok = any(isinstance(n, ast.For) and norm(n.iter) == 'self.children' for n in ast.walk(f)) and 'ack_code' in ast.unparse(f)
+    require_idiom(ok, 'c05.py:360')
     yield Ob('error_handler:err_gs.count_failed_st counts children by ack_code', ok, ctx.floc(f), '' if ok else 'changed')
     # err_st.close: ack 'A' exactly when err_count() == 0
     f = ctx.func('error_handler', 'err_st.close')
